@@ -115,9 +115,9 @@ public:
 	}
     bool anonymous() const {return name_.empty();}
 
-    void set_name(std::string _name) {
-        name_ = std::move(_name);
-    }
+    /// Rename the property. Shared properties must stay named and unique
+    /// (per name, type and entity type); otherwise std::runtime_error is thrown.
+    void set_name(std::string _name);
 
 	const std::string& internal_type_name() const && = delete;
 
